@@ -620,7 +620,10 @@ class Interp:
             if agg == "tuple":
                 return Val(frozenset(), {str(i): o for i, o in enumerate(ops)}) if ops else V("Const(())")
             if agg == "array":
-                return Val(frozenset(), {"[*]": vjoin_all(ops)})
+                f = {"[*]": vjoin_all(ops)}
+                if ops:
+                    f["#nonempty"] = V("Const(%d)" % len(ops))
+                return Val(frozenset(), f)
             if agg == "closure":
                 return Val(frozenset([(("closure", rv["def"]), NOOPS)]),
                            {str(i): o for i, o in enumerate(ops)})
